@@ -63,6 +63,12 @@ def reference(cfg, seed, seed_v=None):
     return {k: np.array(v) for k, v in S.stats.items()}
 
 
+def _run_study(SF, how):
+    # unordered pool APIs may deliver in any order: use that freedom against the caller (harness-side wrapper)
+    with impl.adversarial_pool():
+        SF.run(how=how)
+
+
 def check(rep, tier):
     rng = random.Random(rep.seed)
     ok, msg = common.proof_stage(rep, "C04", ["theories/model/FlakeObj.vo"])
@@ -167,7 +173,7 @@ def check(rep, tier):
                 with impl.quiet():
                     SF = sfall.Snowfall(Nrep=Nrep, pool_size=pool, k=dict(cfg["k"]), N_vials=cfg["shape"], dt=cfg["dt"], seed_v=cfg["seed_v"],
                                         opcond=fr.gen_opcond.build(cfg["prog"], impl.opcond_mod()), configPath=impl.cfg_path(cfg["over"]))
-                    SF.run(how=how)
+                    _run_study(SF, how)
             except Exception as e:
                 rep.violation("snowfall-crash %s" % type(e).__name__, "Snowfall(how=%r, pool_size=%r, Nrep=%d) raises %r" % (how, pool, Nrep, e), dict(how=how, pool_size=pool, Nrep=Nrep))
                 continue
@@ -190,7 +196,7 @@ def check(rep, tier):
                     with impl.quiet():
                         _ = SF.nucleationTimes(); _ = SF.to_frame()
                         SF.Sf_template.seed_v = cfg["seed_v"] + 3
-                        SF.run(how=how)
+                        _run_study(SF, how)
                         acc = [np.asarray(SF.nucleationTimes(seed=[i]), dtype=float) for i in range(Nrep)]
                         accs = [np.asarray(SF.solidificationTimes(seed=[i]), dtype=float) for i in range(Nrep)]
                 except Exception as e:
